@@ -2,6 +2,7 @@ package compiler
 
 import (
 	"fmt"
+	"sort"
 
 	"github.com/grafana/cog/internal/ast"
 )
@@ -120,7 +121,14 @@ func (pass *DisjunctionInferMapping) inferDiscriminatorField(schema *ast.Schema,
 		allTypes = append(allTypes, typeName)
 	}
 
+	// several fields can qualify: consider them in a stable order, to ensure a consistent output
+	candidateFieldNames := make([]string, 0, len(candidates[someType]))
 	for candidateFieldName := range candidates[someType] {
+		candidateFieldNames = append(candidateFieldNames, candidateFieldName)
+	}
+	sort.Strings(candidateFieldNames)
+
+	for _, candidateFieldName := range candidateFieldNames {
 		existsInAllBranches := true
 		for _, branchTypeName := range allTypes {
 			if _, ok := candidates[branchTypeName][candidateFieldName]; !ok {
